@@ -125,6 +125,9 @@ func registerIntrinsics(e *Engine) {
 		e.setResult(st, c, cnt)
 		return nil
 	}
+	ident := func(e *Engine, st *State, c ssa.CallInstruction, a []Value) []*State { e.setResult(st, c, a[0]); return nil }
+	I["internal/stringslite.Clone"] = ident
+	I["strings.Clone"] = ident
 	// ---- strings.Builder
 	I["(*strings.Builder).WriteByte"] = func(e *Engine, st *State, c ssa.CallInstruction, a []Value) []*State {
 		e.builderAppend(st, a[0].(PtrV), []*Term{a[1].(*Term)})
